@@ -1,5 +1,6 @@
 import RoaringModel.Lemmas.BitmapOps
 import RoaringModel.Lemmas.BitmapSearchOps
+import RoaringModel.Lemmas.BitmapOrAssign
 /-!
 # C02 — 32-bit set algebra is exactly union / intersection / difference / symmetric difference
 
@@ -147,6 +148,50 @@ theorem C02_sub_forms_agree_partial (K : BKernel) (a b : Bitmap) (ha : a.WF) (hb
   · rfl
   · exact (C02_sub_ao_partial K a b ha hb).2.trans h0.symm
   · exact (C02_sub_ar_partial K a b ha hb).2.trans h0.symm
+
+/-! ### the insert-or-merge loops of `|=` -/
+
+theorem C02_sOr_comm (l r : List Nat) (hl : Sorted l) (hr : Sorted r) : Spec.sOr l r = Spec.sOr r l := by
+  apply sorted_ext_local _ _ (Spec.sorted_sOr l r hl hr) (Spec.sorted_sOr r l hr hl)
+  intro x; rw [Spec.mem_sOr, Spec.mem_sOr]; exact Or.comm
+
+theorem C02_or_ar_partial (K : BKernel) : Exact orAR Spec.sOr := by
+  intro a b ha hb
+  rw [orAR_eq_pairsOp a b ha hb]
+  exact pairsOp_elems_eq K (pairSpec_orAR K) a b ha hb _
+    (Spec.sorted_sOr _ _ (sorted_elems K a ha) (sorted_elems K b hb)) (fun y => Spec.mem_sOr _ _ y)
+
+/-- `a |= b` (owned): whichever way the `len()`-based operand swap goes, the result is the union -/
+theorem C02_or_ao_partial (K : BKernel) : Exact orAO Spec.sOr := by
+  intro a b ha hb
+  rw [orAO_eq_pairsOp a b ha hb]
+  split
+  · have := pairsOp_elems_eq K (pairSpec_orAO K) b a hb ha _
+      (Spec.sorted_sOr _ _ (sorted_elems K b hb) (sorted_elems K a ha)) (fun y => Spec.mem_sOr _ _ y)
+    exact ⟨this.1, by rw [C02_sOr_comm _ _ (sorted_elems K a ha) (sorted_elems K b hb)]; exact this.2⟩
+  · exact pairsOp_elems_eq K (pairSpec_orAO K) a b ha hb _
+      (Spec.sorted_sOr _ _ (sorted_elems K a ha) (sorted_elems K b hb)) (fun y => Spec.mem_sOr _ _ y)
+
+/-- `a | b` is `a |= b`, `a | &b` is `a |= &b` (ops.rs:107-125). -/
+theorem C02_or_oo_partial (K : BKernel) : Exact orOO Spec.sOr := C02_or_ao_partial K
+theorem C02_or_or_partial (K : BKernel) : Exact orOR Spec.sOr := C02_or_ar_partial K
+
+/-- `&a | b` = `BitOr::bitor(rhs, self)` (ops.rs:127): the operands are exchanged. -/
+theorem C02_or_ro_partial (K : BKernel) : Exact orRO Spec.sOr := by
+  intro a b ha hb
+  have := C02_or_ar_partial K b a hb ha
+  exact ⟨this.1, by rw [C02_sOr_comm _ _ (sorted_elems K a ha) (sorted_elems K b hb)]; exact this.2⟩
+
+theorem C02_or_forms_agree_partial (K : BKernel) (a b : Bitmap) (ha : a.WF) (hb : b.WF) (fm : Form) :
+    elems (binop .or fm a b) = elems (orRR a b) := by
+  have h0 := (C02_or_rr_partial K a b ha hb).2
+  cases fm
+  · exact (C02_or_oo_partial K a b ha hb).2.trans h0.symm
+  · exact (C02_or_or_partial K a b ha hb).2.trans h0.symm
+  · exact (C02_or_ro_partial K a b ha hb).2.trans h0.symm
+  · rfl
+  · exact (C02_or_ao_partial K a b ha hb).2.trans h0.symm
+  · exact (C02_or_ar_partial K a b ha hb).2.trans h0.symm
 
 /-- the wrappers of ops.rs delegate: `a | b` is `a |= b`, `a | &b` is `a |= &b`, `&a | b` is `b |= &a`;
     likewise for `&`; every owned/borrowed form of `-` is `a -= &b` except `&a - &b` / `&a - b`. -/
